@@ -226,11 +226,11 @@ def check_sampled(ctx, rng):
 
 
 def run(ctx):
-    for k in range(ctx.n(60, 600)):
+    for k in range(ctx.n(90, 1500)):
         check_space(ctx, ctx.rng)
-    for k in range(ctx.n(40, 400)):
+    for k in range(ctx.n(60, 1000)):
         check_pair(ctx, ctx.rng)
-    for k in range(ctx.n(25, 250)):
+    for k in range(ctx.n(40, 600)):
         check_sampled(ctx, ctx.rng)
     ctx.lean.flush()
 
